@@ -462,16 +462,19 @@ func c11(r *vc.Run) int {
 
 	// Part C: all trees with <= maxN nodes x all status assignments
 	treesC, assignmentsC, checkedC := c11PartC(r, r.N(4, 5))
+	// Part D: de-duplication on all small trees x status assignments x URL assignments of the leaves
+	treesD, casesD, dupCasesD := c11PartD(r, 4, r.Thorough())
 
 	cov := map[string]any{
-		"evaluations":         execsA + nB + assignmentsC,
-		"distinct_nontrivial": stats.finalShapes.Len() + checkedC,
+		"evaluations":         execsA + nB + assignmentsC + casesD,
+		"distinct_nontrivial": stats.finalShapes.Len() + checkedC + dupCasesD,
 		"rule":                "A: every choice vector of the pipeline-shaped history generator within the scope (stateless enumeration on the real model); B: seeded random vectors on scopes up to 200 nodes; C: every rooted ordered tree x every status assignment. Non-trivial = distinct final (shape,status) trees reached by A/B plus C-assignments that pass CheckConsistency and the stage invariant (so the completion oracle applied)",
 		"samples":             samples.List(),
 		"exhaustive":          exhaustive,
 		"part_A":              map[string]any{"scope": scopeA, "executions": execsA, "exhaustive": exhaustive, "distinct_final_trees": shapesA},
 		"part_B":              map[string]any{"histories": nB},
 		"part_C":              map[string]any{"trees": treesC, "assignments": assignmentsC, "completion_oracle_applied": checkedC},
+		"part_D":              map[string]any{"trees": treesD, "cases": casesD, "cases_with_duplicates": dupCasesD, "rule": "every rooted ordered tree of up to 4 nodes x every status assignment that passes CheckConsistency x every assignment of the leaf URLs from {X, Y} (+ a third letter in the thorough tier); inner nodes have URLs of their own; after DedupeItems: structure well-formed, exactly one non-seed node per URL, no URL lost"},
 		"dedupe_calls":        stats.dedupeCalls,
 		"dedupe_removed":      stats.dedupeRemovals,
 		"consistency_checks":  stats.consistencyChecks,
@@ -484,6 +487,7 @@ func c11(r *vc.Run) int {
 	cov["samples"] = samples.List()
 	return r.Finish("exploration", cov, []string{
 		"histories are pipeline-shaped: the model operations and their order are those of preprocess/archive/postprocess/finisher in the pinned code; data-dependent outcomes are choice points",
+		"part D gives duplicate URLs to leaves only: two expanded copies of one URL cannot arise in the pipeline (a duplicate is removed while it is still fresh)",
 		"part C asserts completion only on assignments where pending nodes sit at the deepest level and terminal nodes have no pending descendants (the states the stages can produce)",
 	}, 50)
 }
@@ -598,4 +602,130 @@ func c11CheckAssignment(r *vc.Run, parent, assign []int, statuses []models.ItemS
 		r.Violation("structure/partC-after", err.Error(), map[string]any{"parent": parent, "assign": assign})
 	}
 	return 1
+}
+
+// c11PartD: DedupeItems on every small tree x status assignment x leaf-URL assignment.
+func c11PartD(r *vc.Run, maxN int, threeLetters bool) (trees, cases, dupCases int) {
+	statuses := []models.ItemState{models.ItemFresh, models.ItemPreProcessed, models.ItemArchived, models.ItemFailed, models.ItemCompleted, models.ItemSeen, models.ItemGotRedirected, models.ItemGotChildren}
+	letters := []string{"X", "Y"}
+	if threeLetters {
+		letters = append(letters, "Z")
+	}
+	reported := 0
+	for n := 3; n <= maxN; n++ {
+		parent := make([]int, n)
+		var recParents func(i int)
+		recParents = func(i int) {
+			if i < n {
+				for p := 0; p < i; p++ {
+					parent[i] = p
+					recParents(i + 1)
+				}
+				return
+			}
+			trees++
+			hasChild := make([]bool, n)
+			for k := 1; k < n; k++ {
+				hasChild[parent[k]] = true
+			}
+			var leaves []int
+			for k := 1; k < n; k++ {
+				if !hasChild[k] {
+					leaves = append(leaves, k)
+				}
+			}
+			assign := make([]int, n)
+			urlOf := make([]int, len(leaves))
+			var recURL func(j int)
+			check := func() {
+				cases++
+				nodes := make([]*models.Item, n)
+				nodes[0] = models.NewItem("n0", c11URL("http://h.example/seed"), "")
+				li := 0
+				for k := 1; k < n; k++ {
+					u := fmt.Sprintf("http://h.example/inner%d", k)
+					if !hasChild[k] {
+						u = "http://h.example/" + letters[urlOf[li]]
+						li++
+					}
+					nodes[k] = models.NewItem(fmt.Sprintf("n%d", k), c11URL(u), "")
+					from := models.ItemGotChildren
+					if statuses[assign[parent[k]]] == models.ItemGotRedirected {
+						from = models.ItemGotRedirected
+					}
+					if nodes[parent[k]].AddChild(nodes[k], from) != nil {
+						return
+					}
+				}
+				for k := range nodes {
+					nodes[k].SetStatus(statuses[assign[k]])
+				}
+				seed := nodes[0]
+				if seed.CheckConsistency() != nil {
+					return
+				}
+				before := nonSeedURLs(seed)
+				dup := false
+				for _, c := range before {
+					if c > 1 {
+						dup = true
+					}
+				}
+				drawn := ""
+				if dup {
+					dupCases++
+					drawn = c11Draw(seed)
+				}
+				if err := seed.DedupeItems(); err != nil {
+					return
+				}
+				after := nonSeedURLs(seed)
+				fail := func(sig, what string) {
+					if reported < 40 {
+						reported++
+						r.Violation(sig, what+"\nbefore:\n"+drawn+"after:\n"+c11Draw(seed), map[string]any{"parent": append([]int(nil), parent...), "statuses": append([]int(nil), assign...), "leaf_urls": append([]int(nil), urlOf...)})
+					}
+				}
+				for u, c := range after {
+					if c > 1 {
+						fail("partD/url-kept-twice", fmt.Sprintf("after DedupeItems %d non-seed nodes carry %s", c, u))
+					}
+				}
+				for u := range before {
+					if after[u] == 0 {
+						fail("partD/url-lost", fmt.Sprintf("DedupeItems removed every node carrying %s", u))
+					}
+				}
+				if _, _, err := c11Structure(seed); err != nil {
+					fail("partD/structure", err.Error())
+				} else if err := seed.CheckConsistency(); err != nil {
+					fail("partD/consistency", err.Error())
+				}
+			}
+			recURL = func(j int) {
+				if j == len(leaves) {
+					check()
+					return
+				}
+				for l := range letters {
+					urlOf[j] = l
+					recURL(j + 1)
+				}
+			}
+			var recAssign func(j int)
+			recAssign = func(j int) {
+				if j == n {
+					recURL(0)
+					return
+				}
+				for s := range statuses {
+					assign[j] = s
+					recAssign(j + 1)
+				}
+			}
+			recAssign(0)
+		}
+		recParents(1)
+	}
+	return
 }
